@@ -142,7 +142,7 @@ let () =
      | Some b when not same ->
          let may_remove = starts !call "CALL restrict" && starts !res "RES rc=0" in
          let dms = Stdlib.List.filter_map (fun (g, x) -> if x.x_dm then Some g else None) (extras_of b) in
-         let vs = hist_check b.pd cur.pd may_remove @ (if may_remove then dm_vanish_check b.pd cur.pd dms else []) @ (if starts !call "CALL ud" then [] else ud_check (uds_of (extras_of b)) (uds_of (extras_of cur))) in
+         let vs = (if group_depth_check b.pd = [] then group_depth_check cur.pd else []) @ hist_check b.pd cur.pd may_remove @ (if may_remove then dm_vanish_check b.pd cur.pd dms else []) @ (if starts !call "CALL ud" then [] else ud_check (uds_of (extras_of b)) (uds_of (extras_of cur))) in
          (* identity attributes (name, subtype, infos) of every object present before and after, by gp_index:
             only the call's own target may change them (info/subtype calls; the object a Group was merged into) *)
          let hc = kv_tbl (split_on ' ' !call) and hr = kv_tbl (split_on ' ' !res) in
